@@ -4,14 +4,13 @@
 (* ledger (GA): collecting from iterators (Collect), the record-level      *)
 (* checks (views, layout, comparison, hex, ...) that need no ledger state. *)
 (***************************************************************************)
-EXTENDS Collect
-
-VARIABLE mem   \* memory cells behind borrowed views (C02)
+EXTENDS Views
 
 xVars == <<mem>>
 
-XInit == mem = <<>>
-XReset == mem' = <<>>
+NoMem == [cells |-> <<>>, parts |-> <<>>, esize |-> 0]
+XInit == mem = NoMem
+XReset == mem' = NoMem
 XQuiescent == TRUE
 XInv == TRUE
 
@@ -26,4 +25,8 @@ XEvent(r) ==
     \/ /\ r.ev = "poll_ret"
        /\ PollRet(IF Anonymous /\ Len(r.some) = 1 THEN [r EXCEPT !.some = <<NewId>>] ELSE r)
        /\ UNCHANGED mem
+    \/ /\ r.ev = "vsrc" /\ VSrc(r) /\ UNCHANGED gaVars
+    \/ /\ r.ev = "view" /\ VView(r) /\ UNCHANGED gaVars
+    \/ /\ r.ev = "vwrite" /\ VWrite(r) /\ UNCHANGED gaVars
+    \/ /\ r.ev = "vread" /\ VRead(r) /\ UNCHANGED gaVars
 =============================================================================
